@@ -243,11 +243,37 @@ def override_through_path(r):
     return layers
 
 
+def embedded_chain(r, tier="quick"):
+    """An acyclic chain of n references around the depth limit where hops are embedded in text, whole-value, inside a
+    list or behind a path: every chain shorter than the limit must render, longer ones are a depth error, never a loop."""
+    n = r.choice([10, 31, 32, 33, 34, 40, 50, 60, 62, 63, 64, 65, 66, 70])
+    style = r.choice(["embedded", "embedded", "mixed", "whole", "prefix_only"])
+    base = []
+    for i in range(n):
+        nxt = "p%03d" % (i + 1)
+        form = style if style != "mixed" else r.choice(["embedded", "whole", "prefix_only", "list"])
+        if form == "embedded":
+            v = "x-${%s}-y" % nxt
+        elif form == "prefix_only":
+            v = "<${%s}" % nxt
+        elif form == "list":
+            v = ["${%s}" % nxt]
+        else:
+            v = "${%s}" % nxt
+        base.append(["p%03d" % i, v])
+    base.append(["p%03d" % n, r.choice(["end", G.I(7)])])
+    if r.chance(1, 3):
+        base = r.shuffle(base)
+    return [G.M(base)]
+
+
 def empty_const(r):
     """A constant (or override) marker on an EMPTY container, over nothing / a plain container of the same or another
     kind, with a later writer of the key."""
     kind = r.choice(["map", "list"])
     empty = G.M([]) if kind == "map" else []
+    if r.chance(1, 4):
+        empty = None   # a constant (or override) whose value is null
     full = G.M([["a", G.I(1)]]) if kind == "map" else [G.I(1)]
     other = [G.I(1)] if kind == "map" else G.M([["a", G.I(1)]])
     nested = r.chance(1, 2)
@@ -265,6 +291,25 @@ def empty_const(r):
     return layers
 
 
-FAMILIES = {"empty_segments": empty_segments, "override_through_path": override_through_path, "empty_const": empty_const,
+def null_const(r):
+    """A key marked constant while its value is null (directly or through a reference resolving to null), redefined
+    later: the constant must hold."""
+    nested = r.chance(1, 2)
+    def wrap(e):
+        return G.M([["p", G.M([e])]]) if nested else G.M([e])
+    layers = [G.M([["nul", None], ["pad", G.I(0)]])]
+    if r.chance(1, 3):
+        layers.append(wrap(["k", r.choice([G.I(1), None, [G.I(1)]])]))
+    layers.append(wrap(["=k", r.choice([None, None, "${nul}"])]))
+    late = r.choice([G.I(2), "two", [G.I(2)], G.M([["a", G.I(2)]]), None])
+    layers.append(wrap([r.choice(["k", "k", "~k", "=k"]), late]))
+    if r.chance(1, 3):
+        layers.append(wrap(["k", G.I(3)]))
+    if r.chance(1, 3):
+        layers.append(G.M([["use", "${p:k}" if nested else "${k}"]]))
+    return layers
+
+
+FAMILIES = {"null_const": lambda r: null_const(r), "empty_segments": empty_segments, "override_through_path": override_through_path, "empty_const": empty_const,
             "deep_ref_layers": deep_ref_layers, "repeated_layers": repeated_layers, "escapes_in_containers": escapes_in_containers,
             "both_flags": both_flags}
